@@ -86,6 +86,15 @@ def fixed_cases():
     add({'m': 'include "m" x := 1'}, 'm', 'include')
     add({'m': 'include "a" include "a" x := 1', 'a': 'y := 2;'}, 'm', 'include')
     add({'m': 'include'}, 'm', 'include')
+    # include graphs: cycles through two and more files, a cycle that does not pass through the main file, diamonds,
+    # chains with a missing link — the compilation must return, with the recursion and the missing file reported
+    add({'m': 'x0 := 1; INCLUDE "u" x1 := 2', 'u': 'INCLUDE "m" y := 3'}, 'm', 'include_graph')
+    add({'m': 'include "a"', 'a': 'include "b"', 'b': 'include "c" x := 1', 'c': 'include "a" y := 2'}, 'm', 'include_graph')
+    add({'m': 'include "a" x := 1', 'a': 'include "b" y := 1', 'b': 'include "a" include "b" z := 1'}, 'm', 'include_graph')
+    add({'m': 'include "a" include "b" x := 1', 'a': 'include "c"', 'b': 'include "c"', 'c': 'PROGRAM f DO x0 := 1 END'}, 'm', 'include_graph')
+    add({'m': 'include "a" x := 1', 'a': 'include "nofile" include "m"'}, 'm', 'include_graph')
+    add({'m': 'include "a"', 'a': 'include "a"'}, 'm', 'include_graph')
+    add({'m': 'x := 1', 'a': 'include "b"', 'b': 'include "a"'}, 'm', 'include_graph')
     add({'m': 'x := 1\x00; y := 2'}, 'm', 'nul')
     add({'m': 'x := 1\r\ny := 2\r\n'}, 'm', 'crlf')
     add({'m': 'l: l: x := 1; GOTO l; GOTO nowhere'}, 'm', 'labels')
@@ -94,7 +103,7 @@ def fixed_cases():
 
 
 def loc_ok(files, main, f_hex, line):
-    f = bytes.fromhex(f_hex).decode('latin-1') if f_hex != '-' else ''
+    f = vlib.unhex_s(f_hex) if f_hex != '-' else ''
     if f == '-' and line == -1:
         return True
     if f == STD:
@@ -160,6 +169,9 @@ def explore(ctx, res, replay=None):
         il = iout['c%d' % i]
         case = {'source': {'files': files, 'main': main}, 'tag': tag}
         if il == 'SKIPPED':
+            continue
+        if il.startswith('MEMLIMIT'):
+            res.violations.append(dict(case, what='memory', detail='the compilation was stopped after allocating more than the 3 GB a single case may use: work not bounded by the input'))
             continue
         if il.startswith('TIMEOUT'):
             # expansion work is cubic in the stream length for self-reproducing macros: a slow case is re-run alone,
